@@ -20,7 +20,8 @@ RULE = ("Each of the 657 named colours exhaustively (16 per document as a 4x4 bo
         "\\chcbpat \\brdrcf parameter indexes an existing \\colortbl entry; for every sentinel-tagged element the "
         "entry's RGB equals the frozen RGB of the requested colour (0/absent only for ''/black); a colour "
         "table exists whenever a non-default colour is requested; every \\fN resolves to a \\fonttbl entry whose "
-        "name is the frozen name of the requested font. Non-trivial = >=2 distinct non-default colours or a "
+        "name is the frozen name of the requested font; a page_by heading row carries the colours / font of its own "
+        "column (first row of the grid). Non-trivial = >=2 distinct non-default colours or a "
         "multi-section / figure document with a colour; distinct by sha1 of recipe.")
 ASSUMPTIONS = ["frozen colour / font tables (data/*.json) are the meaning of 'the named colour' / 'font number'",
                "multi-section and figure documents are kept to one page per section; single tables are also paginated"]
@@ -302,6 +303,18 @@ def check(case) -> Result:
                     cx.element(f"body/{kind}", cell.cprops, attr_at(body.get("text_color"), i, j), attr_at(body.get("text_background_color"), i, j),
                                attr_at(body.get("text_font"), i, j, 1))
                     cx.borders(f"body/{kind}", cell, body, i, j, name == disp[-1])
+            elif it.role == "heading" and len(secs) == 1:
+                # a page_by heading row inherits the style of its own column (encode_spanning_row: "column index to
+                # inherit attributes from"), first row of the attribute grid
+                sec = secs[0]
+                body = sec.get("body", {})
+                names = [c["name"] for c in sec["df"]["cols"]]
+                pb = R.as_list(body.get("page_by"))
+                if len(pb) == 1 and pb[0] in names:
+                    g = names.index(pb[0])
+                    cell = it.block.cells[0]
+                    cx.element(f"heading/{kind}", cell.cprops, attr_at(body.get("text_color"), 0, g), attr_at(body.get("text_background_color"), 0, g),
+                               attr_at(body.get("text_font"), 0, g, 1))
             elif it.role == "header":
                 t0 = it.texts[0]
                 if t0.startswith("@H"):
